@@ -35,6 +35,22 @@ pub fn mirror(ctx: &mut Ctx, case: &Case, factor: f64) {
     let Ok(r) = crate::core::guarded(|| parser.parse(&case.input)) else { return };
     if !r.is_valid() {
         ctx.count("not_canonically_valid_skipped");
+        // the bindings may refuse such an input in their own way (they panic); what they may not do is stop working: the
+        // next call with a good recipe has to return its mirror
+        let input = case.input.clone();
+        let refused = crate::core::guarded(move || b::parse_recipe(input, factor)).is_err();
+        let after = crate::core::guarded(|| b::parse_recipe("Boil @water{2%l} in a #pot for ~{10%minutes}.".to_string(), 2.0));
+        match after {
+            Ok(rec) => {
+                let ok = rec.ingredients.len() == 1 && rec.ingredients[0].name == "water" && matches!(&rec.ingredients[0].amount, Some(a) if matches!(a.quantity, bm::Value::Number { value } if value == 4.0) && a.units.as_deref() == Some("l"));
+                if !ok {
+                    ctx.violation(case, "history", "good_recipe_mirrored_wrongly_after_rejected_input", format!("after this input (refused: {refused}) the recipe 'Boil @water{{2%l}}…' x2 gives {:?}", rec.ingredients));
+                } else if refused {
+                    ctx.count("good_call_after_refused_input_ok");
+                }
+            }
+            Err(p) => ctx.violation(case, "history", "bindings_unusable_after_rejected_input", format!("after this input (refused: {refused}) a call with a good recipe panics: {} at {}", p.message, p.location)),
+        }
         return;
     }
     let core = r.into_output().unwrap().scale(factor, parser.converter());
@@ -424,7 +440,7 @@ pub fn run(ctx: &mut Ctx) {
         let mut r = Rng::new(seed);
         let spec = g::gen_spec(&mut r, &opts);
         let sp = g::spell(&spec, seed, feat::ALL, (i % 3 + 1) as u32);
-        let f = *ctx.rng.pick(&[1.0, 2.0, 0.5, 3.3]);
+        let f = *ctx.rng.pick(&[1.0, 2.0, 0.5, 3.3, 1.004, 0.996, 1.0001, 1.1, 1.0 / 3.0, 0.999999]);
         let case = Case::new("mirror", sp.text, 0, "empty").with(json!({"factor": f}));
         mirror(ctx, &case, f);
         // the same text again at once with another factor, then with the first one: a call must not depend on the call before
